@@ -151,7 +151,7 @@ fn main() {
     let mut seed: u64 = 1;
     let mut tier = "quick".to_string();
     let mut out_dir = ".".to_string();
-    let mut shard = 300usize;
+    let mut shard = 1500usize;
     let mut i = 3;
     while i < argv.len() {
         match argv[i].as_str() {
@@ -204,52 +204,64 @@ fn main() {
     let mut samples: Vec<String> = vec![];
     let mut panics = 0u64;
     let total = cases.len();
-    let nshards = (total + shard - 1) / shard.max(1);
-    let mut idx = 0usize;
-    for k in 0..nshards {
+    let nshards = ((total + shard - 1) / shard.max(1)).max(16);
+    let mut vs: Vec<String> = vec![];
+    let mut ts: Vec<String> = vec![];
+    let mut counts: Vec<usize> = vec![0; nshards];
+    for _ in 0..nshards {
         let mut v = String::new();
-        let mut t = String::new();
         writeln!(v, "From WT.Model Require Import Base.\nFrom WT.Corr Require Import CorrBase {}.", corr_module).unwrap();
         writeln!(v, "Local Open Scope N_scope.").unwrap();
         writeln!(v, "Definition cases : list (N * list (list N) * list (list N)) := [").unwrap();
-        let end = ((k + 1) * shard).min(total);
-        let mut first = true;
-        while idx < end {
-            let c = &cases[idx];
-            let out = run_exec(c.f, &c.args);
-            if out.len() == 1 && out[0] == vec![PANIC] {
-                panics += 1;
+        vs.push(v);
+        ts.push(String::new());
+    }
+    for (idx, c) in cases.iter().enumerate() {
+        // each case goes to the currently smallest shard (by text size) so that
+        // expensive cases spread evenly over the parallel coqc runs
+        let k = {
+            let mut best = 0usize;
+            for q in 1..nshards {
+                if vs[q].len() < vs[best].len() {
+                    best = q;
+                }
             }
-            *hist.entry(format!("{}:{}", c.f, c.label)).or_insert(0) += 1;
-            let oc = suites::outcome_class(c.f, &out);
-            *outcome_hist.entry(format!("{}:{}", c.f, oc)).or_insert(0) += 1;
-            if seen.insert(hash_case(c.f, &c.args)) && !c.trivial {
-                distinct_nontrivial += 1;
-            }
-            if let Some((p, m)) = suites::oracle(c.f, &c.args, &out) {
-                oracle_fail.push(format!(
-                    "{{\"property\":\"{}\",\"f\":{},\"args\":\"{}\",\"out\":\"{}\",\"what\":\"{}\",\"shard\":{},\"index\":{}}}",
-                    p, c.f, args_str(&c.args), args_str(&out), json_escape(&m), k, idx - k * shard
-                ));
-            }
-            if samples.len() < 6 && (idx % (total / 6 + 1) == 0) {
-                samples.push(format!(
-                    "{{\"f\":{},\"label\":\"{}\",\"args\":\"{}\",\"out\":\"{}\"}}",
-                    c.f, json_escape(&c.label), json_escape(&trunc(&args_str(&c.args))), json_escape(&trunc(&args_str(&out)))
-                ));
-            }
-            if !first {
-                v.push_str(";\n");
-            }
-            first = false;
-            write!(v, " ({}, {}, {})", c.f, coq_lists(&c.args), coq_lists(&out)).unwrap();
-            writeln!(t, "{} {} | {} | {}", c.f, args_str(&c.args), args_str(&out), c.label).unwrap();
-            idx += 1;
+            best
+        };
+        let out = run_exec(c.f, &c.args);
+        if out.len() == 1 && out[0] == vec![PANIC] {
+            panics += 1;
         }
-        writeln!(v, "\n].").unwrap();
-        writeln!(v, "Eval vm_compute in (bad_indices {}.chk cases).", corr_module).unwrap();
-        std::fs::write(format!("{}/{}_{}.v", out_dir, suite, k), v).unwrap();
-        std::fs::write(format!("{}/{}_{}.txt", out_dir, suite, k), t).unwrap();
+        *hist.entry(format!("{}:{}", c.f, c.label)).or_insert(0) += 1;
+        let oc = suites::outcome_class(c.f, &out);
+        *outcome_hist.entry(format!("{}:{}", c.f, oc)).or_insert(0) += 1;
+        if seen.insert(hash_case(c.f, &c.args)) && !c.trivial {
+            distinct_nontrivial += 1;
+        }
+        if let Some((p, m)) = suites::oracle(c.f, &c.args, &out) {
+            oracle_fail.push(format!(
+                "{{\"property\":\"{}\",\"f\":{},\"args\":\"{}\",\"out\":\"{}\",\"what\":\"{}\",\"shard\":{},\"index\":{}}}",
+                p, c.f, args_str(&c.args), args_str(&out), json_escape(&m), k, counts[k]
+            ));
+        }
+        if samples.len() < 6 && (idx % (total / 6 + 1) == 0) {
+            samples.push(format!(
+                "{{\"f\":{},\"label\":\"{}\",\"args\":\"{}\",\"out\":\"{}\"}}",
+                c.f, json_escape(&c.label), json_escape(&trunc(&args_str(&c.args))), json_escape(&trunc(&args_str(&out)))
+            ));
+        }
+        if counts[k] > 0 {
+            vs[k].push_str(";\n");
+        }
+        counts[k] += 1;
+        write!(vs[k], " ({}, {}, {})", c.f, coq_lists(&c.args), coq_lists(&out)).unwrap();
+        writeln!(ts[k], "{} {} | {} | {}", c.f, args_str(&c.args), args_str(&out), c.label).unwrap();
+    }
+    for k in 0..nshards {
+        writeln!(vs[k], "\n].").unwrap();
+        writeln!(vs[k], "Eval vm_compute in (bad_indices {}.chk cases).", corr_module).unwrap();
+        std::fs::write(format!("{}/{}_{}.v", out_dir, suite, k), &vs[k]).unwrap();
+        std::fs::write(format!("{}/{}_{}.txt", out_dir, suite, k), &ts[k]).unwrap();
     }
     let mut j = String::new();
     write!(
